@@ -101,6 +101,8 @@ class ProgGen(object):
         elif k == 10:
             s = "[%s]" % rng.choice(["$1000", "$10", rng.choice(self.labels)])
             return s
+        elif k == 11:
+            s = "%s,%s" % (rng.choice(self.labels), r)
         else:
             s = "," + r
         single_step = (s.endswith("+") and not s.endswith("++")) or (",-" in s and ",--" not in s)
@@ -316,7 +318,8 @@ def pcr_stress(rng):
     pcr_ops = []
     for k in range(n_pcr):
         mn = rng.choice(LEA + ["LDA", "LDX", "LDY", "STS", "CMPD", "JMP"])
-        op = "T,PCR" if rng.chance(0.8) else "T%s%d,PCR" % (rng.choice("+-"), rng.randint(1, 4))
+        reg = rng.weighted([("PCR", 8), ("X", 1), ("Y", 1), ("U", 1), ("S", 1)])     # label,R goes through the same sizing pass
+        op = ("T,%s" % reg) if rng.chance(0.8) else "T%s%d,%s" % (rng.choice("+-"), rng.randint(1, 4), reg)
         if rng.chance(0.25):
             op = "[%s]" % op
         pcr_ops.append(mk("", mn, op))
